@@ -18,12 +18,12 @@ RULE = ("closed paths: rectangles, ellipses, circles, random polygons, random co
         "with on-curve nodes / horizontal edges / curve y-extremes (K1 family); kept only when farther than 1e-3 of the extent from the finely flattened outline "
         "(+ flattening margin); reference parity by an exact slanted ray in Q (direction re-drawn until it meets no node and no tangency; Sturm isolation); "
         "non-trivial = the reference ray crosses the path at least once; distinct = distinct (path, point)")
-UNPROVED = ["for curved segments the even-odd theorem is conditional (mixed_even_odd) on the hypothesis, per curved segment, that the root finder hands both rays the increasing list of exactly the segment's level crossings (proved for cubics in the Cardano branch whose aligned copies have y-polynomials vanishing exactly on the level set — cubic_hseg_cardano; for quadratics and the degenerate-cubic branches it remains a hypothesis of curve_hseg) and on clear position (no crossing inside a 2e-7 tolerance band); winding-number-0-outside-the-box is proved for chains of lines",
+UNPROVED = ["for curved segments the even-odd theorem is conditional (mixed_even_odd) on the hypothesis, per curved segment, that the root finder hands both rays the increasing list of exactly the segment's level crossings (proved for cubics in the Cardano branch whose aligned copies have y-polynomials vanishing exactly on the level set — cubic_hseg_cardano; and for quadratics — quad_hseg; for the degenerate-cubic branches it remains a hypothesis of curve_hseg; that the aligned copies' y-polynomials vanish exactly on the level set is a hypothesis: exact for the left ray, the right ray's half-turn is computed with sin(pi) = 1.2e-16) and on clear position (no crossing inside a 2e-7 tolerance band); winding-number-0-outside-the-box is proved for chains of lines",
             "for curved segments the crossing lists come from C05's curve/line machinery: completeness of the Cardano branch is sampled (C05)",
             "float evaluation of the crossing parameters near the 2e-7 window ends (sampled; excluded by the distance rule)",
             "sign(tangent.y) = sign of the derivative's y (normalisation by a positive length; atan2/sin for lines: Polar lemmas)"]
 ASSUMPTIONS = ["clear position (C11B.Clear): verticality / horizontality of edges decided exactly, |slope| >= 2e-7 for non-vertical edges, no parameter inside a 2e-7 band", "query level differs from every node / extremum level (else K1)", "no two segments cross a ray at the same point (else K6)"]
-LEVEL_TEXT = ("theorems: C11P.parity_simple_roots / segment_crossing_parity (ANY segment crosses a level an odd number of times iff its end points lie on opposite sides, all crossings simple: intermediate value theorem + sign next to a simple root), mixed_even_odd (closed paths mixing lines and curves: inside iff the left ray reports an odd number of crossings, under the per-segment hypothesis Hseg; line_hseg discharges Hseg for lines in clear position from the regenerated ray test, curve_hseg for curved segments of the winding model: curve_partition (each level crossing in clear position passes the range filter of exactly one ray: one_ray) + hseg_of_partition, given that the root finder hands both rays exactly the crossings; cubic_hseg_cardano removes that hypothesis for cubics in the Cardano branch using CardanoC.cubic_root_list (what _findRoots returns is the increasing repetition-free list of exactly the roots in (0,1)) and sorted_ext (both aligned copies give the same list)); polygon_even_odd (closed chains of lines in clear position: pointIsInside is true exactly when an odd number of edges straddle the query level and cross it "
+LEVEL_TEXT = ("theorems: C11P.parity_simple_roots / segment_crossing_parity (ANY segment crosses a level an odd number of times iff its end points lie on opposite sides, all crossings simple: intermediate value theorem + sign next to a simple root), mixed_even_odd (closed paths mixing lines and curves: inside iff the left ray reports an odd number of crossings, under the per-segment hypothesis Hseg; line_hseg discharges Hseg for lines in clear position from the regenerated ray test, curve_hseg for curved segments of the winding model: curve_partition (each level crossing in clear position passes the range filter of exactly one ray: one_ray) + hseg_of_partition, given that the root finder hands both rays exactly the crossings; cubic_hseg_cardano removes that hypothesis for cubics in the Cardano branch using CardanoC.cubic_root_list (what _findRoots returns is the increasing repetition-free list of exactly the roots in (0,1)) and sorted_ext (both aligned copies give the same list); quad_hseg does the same for quadratic segments (quadraticRoots_nodup, quad_root_list)); polygon_even_odd (closed chains of lines in clear position: pointIsInside is true exactly when an odd number of edges straddle the query level and cross it "
               "left of the point — derived from the regenerated code through ray_line_eq_model / ray_hit (the ray crossing rule), straddle_even (a closed chain crosses a level an even "
               "number of times), collect_flat (the dict holds every crossing once when none coincide), hit_left / hit_right; winding_zero_outside_box (closed chains of lines in clear position: a query point left of, "
               "right of, below or above the box of the vertices has winding number 0 — the far ray meets every straddling edge and the signs telescope around the closed chain (windSum_ray, "
